@@ -540,13 +540,16 @@ def streamPileupSum (sizes : List Nat) (cs : List (List C10.Iv)) : Option Nat :=
   (chromBuffers sizes.length cs).map (fun bufs => ((List.zipWith pileup1 sizes bufs).map List.sum).sum)
 
 /-- `compute(streamed_pileup[peaks])`: per chromosome, the slices of that chromosome's array under
-that chromosome's peaks (`extract_intervals` over `peaks.as_stream()`), concatenated in genome order -/
-def valuesRows (arrays : List (List Nat)) (peakBufs : List (List C10.Iv)) : List (List Nat) :=
-  (List.zipWith (fun d pk => pk.map (fun iv : C10.Iv => (d.drop iv.s).take (iv.e - iv.s))) arrays peakBufs).flatten
+that chromosome's peaks (`extract_intervals` over `peaks.as_stream()`), concatenated in genome order;
+with `stranded`, every row whose strand is not `+` (so `-` and `.`) is reversed -/
+def valuesRows (stranded : Bool) (arrays : List (List Nat)) (peakBufs : List (List C10.Iv)) : List (List Nat) :=
+  (List.zipWith (fun d pk => pk.map (fun iv : C10.Iv =>
+      let row := (d.drop iv.s).take (iv.e - iv.s)
+      if stranded && !iv.fwd then row.reverse else row)) arrays peakBufs).flatten
 
-def streamValues (sizes : List Nat) (cs peakChunks : List (List C10.Iv)) : Option (List (List Nat)) :=
+def streamValues (stranded : Bool) (sizes : List Nat) (cs peakChunks : List (List C10.Iv)) : Option (List (List Nat)) :=
   match chromBuffers sizes.length cs, chromBuffers sizes.length peakChunks with
-  | some bufs, some pk => some (valuesRows (List.zipWith pileup1 sizes bufs) pk)
+  | some bufs, some pk => some (valuesRows stranded (List.zipWith pileup1 sizes bufs) pk)
   | _, _ => none
 
 end C11
